@@ -945,7 +945,9 @@ def instruction(ctx):
 
         text = ctx.code[ctx.pos:idx].strip()
         if text:
-            ctx.skip_whitespace()
+            # Just the blanks: the text is taken literally, so it may well
+            # start with what would be a comment elsewhere
+            ctx.pos = ctx.code.index(text, ctx.pos)
             ctx_before_message = ctx.save()
             ctx.pos += len(text)
             operands = [types.QuotedString(ctx_before_message, ctx, "", text)]
